@@ -4,6 +4,7 @@ import (
 	"errors"
 	"fmt"
 
+	"github.com/taurusgroup/multi-party-sig/internal/cborutil"
 	"github.com/taurusgroup/multi-party-sig/internal/types"
 	"github.com/taurusgroup/multi-party-sig/pkg/math/curve"
 	"github.com/taurusgroup/multi-party-sig/pkg/party"
@@ -38,6 +39,16 @@ func EmptyPreSignature(group curve.Curve) *PreSignature {
 		KShare:   group.NewScalar(),
 		ChiShare: group.NewScalar(),
 	}
+}
+
+// UnmarshalCBOR restores a presignature (initialized with EmptyPreSignature) and validates it, so that
+// corrupted or incomplete data is reported as an error.
+func (sig *PreSignature) UnmarshalCBOR(data []byte) error {
+	type plain PreSignature
+	if err := cborutil.Unmarshal(data, (*plain)(sig)); err != nil {
+		return err
+	}
+	return sig.Validate()
 }
 
 // SignatureShare represents an individual additive share of the signature's "s" component.
